@@ -120,6 +120,14 @@ Definition status_of_blobs (q : N) (B : list fblob) (c : cid) (a : oid) : status
   let s2 := if tomb then worse Removed s1 else s1 in
   if expired_in B q c a && negb locked then worse Expired s2 else s2.
 
+(* blobs the rebuild must index whatever the order: tombstones, locks and every object that no
+   tombstone of the set removes (a tombstoned object read after its tombstone is skipped) *)
+Definition must_know (B : list fblob) (b : fblob) : bool :=
+  match h_typ (fb_h b) with
+  | TTombstone | TLock => true
+  | _ => negb (tomb_in B (fb_c b) (fb_i b))
+  end.
+
 (* every stored tombstone's target carries a garbage mark *)
 Definition tomb_marked (b : cstate) : Prop :=
   forall i en x, In (i, en) (objs b) -> h_typ (e_hdr en) = TTombstone -> h_assoc (e_hdr en) = Some x ->
